@@ -274,7 +274,7 @@ Example C09_batch_nonvacuous :
 Proof.
   cbv zeta. eexists. eexists. split; [vm_compute; reflexivity|]. split; [discriminate|].
   split; [vm_compute; reflexivity|]. split.
-  - cbn [length seq]. apply Permutation_sym. apply (Permutation_cons_app [0; 1]%nat nil 2%nat). apply Permutation_refl.
+  - change (Permutation (2 :: [0; 1]) ([0; 1] ++ 2 :: []))%nat. apply Permutation_cons_app. apply Permutation_refl.
   - eexists. eexists. split; vm_compute; reflexivity.
 Qed.
 
